@@ -131,6 +131,23 @@ Fixpoint qargmin_aux (ds : list Q) (i best : nat) (bv : Q) : nat :=
 Definition qargmin (ds : list Q) : nat := match ds with [] => O | d :: t => qargmin_aux t 1%nat O d end.
 Definition qclosest_idx (pts : list qvec) (q : qvec) : nat := qargmin (map (fun p => qd2 p q) pts).
 
+(** argsort (stable) and the indices of the first [ns] coarse samples, see [argsort] / [fc_starts] *)
+Fixpoint qinsert_idx (d : nat -> Q) (k : nat) (l : list nat) : list nat :=
+  match l with
+  | [] => [k]
+  | j :: t => if Qle_bool (d k) (d j) then k :: l else j :: qinsert_idx d k t
+  end.
+Definition qargsort (ds : list Q) : list nat :=
+  fold_right (qinsert_idx (fun i => nth i ds 0)) [] (seq 0 (length ds)).
+Definition qstart_idxs (pts : list qvec) (q : qvec) (ns : nat) : list nat :=
+  firstn ns (qargsort (map (fun p => qd2 p q) pts)).
+Fixpoint nat_list_eqb (l m : list nat) : bool :=
+  match l, m with
+  | [], [] => true
+  | a :: l', b :: m' => Nat.eqb a b && nat_list_eqb l' m'
+  | _, _ => false
+  end.
+
 (** ** discrete curve (the list functions [slice], [dc_discretize], [interior] of Model/C16_Curves.v are polymorphic
     and used as they are) *)
 Definition qdc_point (pts : list qvec) (i : nat) : qvec := nth i pts qvzero.
